@@ -9,6 +9,7 @@ import (
 	"errors"
 	"fmt"
 	"io"
+	"io/fs"
 	"log/slog"
 	"regexp"
 	"time"
@@ -296,6 +297,10 @@ func indexIngest(repo Repo, index *types.Index, conf config.Config, locked bool)
 	for len(scanChildren) > 0 {
 		childIndex, err := repoGetIndex(repo, scanChildren[0], locked)
 		if err != nil {
+			if gcReadFailed(err) {
+				// the children of an index that could not be read are unknown, not absent
+				return mod, err
+			}
 			scanChildren = scanChildren[1:]
 			continue
 		}
@@ -409,6 +414,13 @@ func referrerListDedup(rl []types.Descriptor) []types.Descriptor {
 // repoGarbageCollect runs a GC against the repo.
 // The repo should be locked before calling this.
 // Changes to the index will be returned and should be saved to the store.
+// gcReadFailed reports whether err is a failure to access the storage,
+// rather than the answer that a blob does not exist or cannot exist.
+func gcReadFailed(err error) bool {
+	var pe *fs.PathError
+	return errors.As(err, &pe) && !errors.Is(err, fs.ErrNotExist)
+}
+
 func repoGarbageCollect(repo Repo, conf config.Config, index types.Index, locked bool) (types.Index, bool, error) {
 	var cutoff time.Time
 	if conf.Storage.GC.GracePeriod >= 0 {
@@ -427,7 +439,12 @@ func repoGarbageCollect(repo Repo, conf config.Config, index types.Index, locked
 		}
 		// keep new blobs
 		if !keep && conf.Storage.GC.GracePeriod >= 0 {
-			if meta, err := repo.blobMeta(d.Digest, locked); err == nil && meta.mod.After(cutoff) {
+			meta, err := repo.blobMeta(d.Digest, locked)
+			if err != nil && gcReadFailed(err) {
+				// nothing is removed based on what could not be read
+				return index, false, fmt.Errorf("garbage collection aborted: %w", err)
+			}
+			if err == nil && meta.mod.After(cutoff) {
 				keep = true
 			}
 		}
@@ -436,10 +453,17 @@ func repoGarbageCollect(repo Repo, conf config.Config, index types.Index, locked
 			dig, _ := digest.Parse(d.Annotations[types.AnnotReferrerSubject])
 			subjExists := (dig != "")
 			if _, err := repo.blobMeta(dig, locked); subjExists && err != nil {
+				if gcReadFailed(err) {
+					return index, false, fmt.Errorf("garbage collection aborted: %w", err)
+				}
 				subjExists = false
 			}
 			if *conf.Storage.GC.ReferrersWithSubj && subjExists {
-				if meta, err := repo.blobMeta(d.Digest, locked); err == nil && conf.Storage.GC.GracePeriod >= 0 && meta.mod.After(cutoff) {
+				meta, err := repo.blobMeta(d.Digest, locked)
+				if err != nil && gcReadFailed(err) {
+					return index, false, fmt.Errorf("garbage collection aborted: %w", err)
+				}
+				if err == nil && conf.Storage.GC.GracePeriod >= 0 && meta.mod.After(cutoff) {
 					// always keep new entries
 					keep = true
 				} else {
@@ -452,7 +476,11 @@ func repoGarbageCollect(repo Repo, conf config.Config, index types.Index, locked
 				keep = true
 			} else if subjExists {
 				// subject exists but need to delete dangling
-				if meta, err := repo.blobMeta(d.Digest, locked); err == nil && conf.Storage.GC.GracePeriod >= 0 && meta.mod.After(cutoff) {
+				meta, err := repo.blobMeta(d.Digest, locked)
+				if err != nil && gcReadFailed(err) {
+					return index, false, fmt.Errorf("garbage collection aborted: %w", err)
+				}
+				if err == nil && conf.Storage.GC.GracePeriod >= 0 && meta.mod.After(cutoff) {
 					// always keep new entries
 					keep = true
 				} else {
@@ -480,6 +508,10 @@ func repoGarbageCollect(repo Repo, conf config.Config, index types.Index, locked
 		}
 		br, err := repo.blobGet(d.Digest, locked)
 		if err != nil {
+			if gcReadFailed(err) {
+				// a manifest that could not be opened still references its content
+				return index, false, fmt.Errorf("garbage collection aborted: %w", err)
+			}
 			continue
 		}
 		seen[d.Digest] = true
@@ -540,6 +572,10 @@ func repoGarbageCollect(repo Repo, conf config.Config, index types.Index, locked
 			continue
 		}
 		bInfo, errMeta := repo.blobMeta(d, locked)
+		if errMeta != nil && gcReadFailed(errMeta) {
+			// the age is unknown, leave the blob for the next pass
+			continue
+		}
 		if errMeta == nil && conf.Storage.GC.GracePeriod >= 0 && bInfo.mod.After(cutoff) && !inIndex[d] {
 			// keep recently uploaded blobs (manifests handled above)
 			continue
